@@ -117,9 +117,18 @@ Example C11_competing_holders :
      = [OCreate (lockp 1); OClose (data 1); OClose (lockp 1); ORemove (lockp 1)].
 Proof. vm_compute. repeat split; reflexivity. Qed.
 
-(* cancellation inside the final COMMIT (second EncodeView): nothing is committed, nothing is left *)
+(* the final COMMIT fails after 4 calls of its writing phase (created table written, temp file of
+   table 1 truncated; a failing write, or cancellation): nothing is committed, nothing is left *)
 Example C11_cancelled_commit :
   let s := run_process ex_cfg ex_dir [AUpdate 1 (Some [107]%N) None; ACreate 11 [97]%N None]
-                       (ACommit [] [] [] (Some 1%nat)) [] in
+                       (ACommit [] [] [] (Some 4%nat)) [] in
   fs_eqb (p_fs s) ex_dir = true /\ p_done s = [] /\ existsb (fun o => op_eqb o (OTrunc (tempp 1))) (p_tr s) = true.
 Proof. vm_compute. repeat split; reflexivity. Qed.
+
+(* the retry loop of the read lock (.lock made, .rlock cannot be made, .lock removed, n times) followed by
+   the wait timeout: six calls, nothing left *)
+Example C11_rlock_retries :
+  let s := run_process ex_cfg ex_dir [ARetryRead 1 2; ARead 1 (Some 0%nat)] (ACommit [] [] [] None) [] in
+  length (p_tr s) = 6%nat /\ fs_eqb (p_fs s) ex_dir = true.
+Proof. vm_compute. repeat split; reflexivity. Qed.
+
